@@ -45,7 +45,15 @@ def make_case(tier, seed, index):
         ps = gen.gen_progspec(rng, spec)
         if ps is not None:
             break
-    zero = bool(rng.random() < 0.15)
+    zero = bool(index % 5 == 4)  # every fifth case: all uncertainties zero or absent (a deterministic share, so that the quick tier always has several)
+    if zero and ps is not None:
+        # a zero uncertainty must leave explicit interaction outcomes alone as well: make sure there are some, next to non-zero baselines
+        for c in ps["covouts"]:
+            names = sorted(c["progs"])
+            if c["imp_interaction"] is None and len(names) >= 2 and rng.random() < 0.7:
+                c["imp_interaction"] = "%s=%r" % ("+".join(names[: int(rng.integers(2, len(names) + 1))]), float(rng.uniform(0, 1)))
+            if c["baseline"] == 0 and rng.random() < 0.7:
+                c["baseline"] = float(rng.uniform(0.05, 0.5))
     # uncertainties
     for name, popvals in spec["values"].items():
         if any(p["name"] == name and p.get("timed") for p in spec["pars"]):
@@ -81,12 +89,12 @@ def make_case(tier, seed, index):
         for p in ps["programs"]:
             p["spend_sigma"] = (0.0 if rng.random() < 0.5 else None) if zero else float(rng.choice([1.0, 50.0]))
         for c in ps["covouts"]:
-            c["sigma"] = (0.0 if rng.random() < 0.5 else None) if zero else float(rng.choice([0.01, 0.05]))
+            c["sigma"] = (0.0 if rng.random() < 0.7 else None) if zero else float(rng.choice([0.01, 0.05]))
     mode = str(rng.choice(["serial", "pool", "pool", "pool", "ensemble"]))
     return {
         "kind": "sampling",
         "spec": spec,
-        "progspec": ps if rng.random() < 0.7 else None,
+        "progspec": ps if (rng.random() < 0.7 or zero) else None,
         "zero_uncertainty": zero,
         "mode": mode,
         "workers": int(WORKERS[int(rng.integers(0, len(WORKERS)))]),
